@@ -45,8 +45,11 @@ def run(chk):
     n1, e1, rej1, kinds, stop_ms, st1 = F.run_scripts(chk, fs, 2, "c05f", inorder=True)
     c02.handle_rejections(chk, rej1, 2, True, chk.cov)
     fw_n = n1
-    chk.cov["component_level"] = {"hybridbuffer_traces": hb_n, "forwarder_traces": fw_n}
-    n += hb_n + fw_n
+    # the input side: receiver buffer and per (connection, key set) buffers hand records on in arrival order, batch by batch
+    from checks import ipcommon
+    ip_n, ip_ev = ipcommon.run(chk, random.Random(chk.seed + 23), thorough, "c05")
+    chk.cov["component_level"] = {"hybridbuffer_traces": hb_n, "forwarder_traces": fw_n, "inputpath_scripts": ip_n}
+    n += hb_n + fw_n + ip_n
     chk.cov.update({"traces_validated_against_impl": n, "trace_events": ev, "evaluations": n,
                     "distinct_nontrivial": len({json.dumps(s["gens"], sort_keys=True) for s in scripts}),
                     "rule": "six fault stories + seeded histories with 2-3 client connections, 1-3 key sets, pauses around the 30 ms tick flush, a 2-4 chunk memory window (forced spills), resets / silent / late upstream connections (retransmissions) and 1-3 generations; the observer checks per (generation, connection, key) that first deliveries are in sent order and per upstream connection that no older un-ACKed chunk of a pipeline is skipped",
